@@ -205,6 +205,9 @@ func genBundle(g *Gen, o BundleOpts) *Bundle {
 	}
 	// layout
 	nAux := g.n(o.MaxAux + 1)
+	if nAux == 0 && o.MaxAux > 0 && strings.HasPrefix(o.Scenario, "collide-") && o.Scenario != "collide-nested" {
+		nAux = 1 // these shapes need an auxiliary document to import from
+	}
 	perm := g.r.Perm(len(auxPathPool))
 	for i := 0; i < nAux; i++ {
 		b.auxPaths = append(b.auxPaths, auxPathPool[perm[i]])
